@@ -234,6 +234,9 @@ class StepHarness:
         self.stats = {'paths': 0, 'ref_outcomes': 0, 'queries': 0, 'covers': {}}
         self.entry = None
         self._loc_cache = {}
+        self.width_table = None      # set by the driver: [(lo, hi, width)] of unicode-width answers != Some(1)
+        self.width_keys = []
+        self.width_facts = []
 
     # ------------------------------------------------------------------ symbolic input
     def setup_symbolic(self):
@@ -241,6 +244,7 @@ class StepHarness:
         N = self.N
         ex.reset_solver(30000)
         self._cc = {}
+        self.width_facts = []
         self.chars = [z3.Int('c%d' % j) for j in range(N)]
         self.len = z3.Int('len')
         self.Lline, self.Lcol, self.Lbyte = z3.Int('L_line'), z3.Int('L_col'), z3.Int('L_byte')
@@ -662,11 +666,43 @@ class StepHarness:
         flush()
         return out
 
+    def real_width(self, cp):
+        tab = self.width_table
+        if tab is None:
+            return 'unknown'
+        import bisect
+        i = bisect.bisect_right(self.width_keys, cp) - 1
+        if i >= 0 and tab[i][0] <= cp <= tab[i][1]:
+            return tab[i][2]
+        return 1
+
     def best_model(self, conds):
-        """prefer a counterexample that starts at Loc::ZERO (replayable without hooks)"""
-        m = self.ex.model(conds + [self.Lline == 0, self.Lcol == 0, self.Lbyte == 0])
-        if m is None:
-            m = self.ex.model(conds)
+        """a counterexample that (1) starts at Loc::ZERO if possible (replayable without hooks) and (2) does not
+        rely on a display width that unicode-width does not actually give to the characters it uses: the width
+        is an uninterpreted function, so facts about the characters of a candidate model are added (they are
+        true statements about the environment) and the query is repeated"""
+        zero = [self.Lline == 0, self.Lcol == 0, self.Lbyte == 0]
+        for attempt in range(8):
+            m = self.ex.model(conds + zero + self.width_facts)
+            if m is None:
+                m = self.ex.model(conds + self.width_facts)
+            if m is None:
+                return None
+            if self.width_table is None:
+                return m
+            new = False
+            n = m.eval(self.len, model_completion=True).as_long()
+            for c in self.chars[:max(0, min(n, self.N))]:
+                v = m.eval(c, model_completion=True).as_long()
+                real = self.real_width(v)
+                mn = z3.is_true(m.eval(SM.WIDTH_NONE(z3.IntVal(v)), model_completion=True))
+                mv = m.eval(SM.WIDTH_VAL(z3.IntVal(v)), model_completion=True).as_long()
+                if (real is None) != mn or (real is not None and mv != real):
+                    fact = SM.WIDTH_NONE(z3.IntVal(v)) if real is None else z3.And(z3.Not(SM.WIDTH_NONE(z3.IntVal(v))), SM.WIDTH_VAL(z3.IntVal(v)) == real)
+                    self.width_facts.append(fact)
+                    new = True
+            if not new:
+                return m
         return m
 
     def cover(self, what):
